@@ -16,10 +16,11 @@ META = {'title': 'Displayed picture is the standard decode of the ULA-visible sc
  'assumptions': ['the Lean model ZxVerif/Model/Video.lean is a hand transcription; its agreement with the Rust code is '
                  'checked by differential execution per delivered frame (hash of all 49152 pixels) on seeded screens, '
                  'paths and schedules, not exhaustively',
-                 'frame clocks only move forward within a frame (the controller guarantees it; the harness uses the '
-                 'clock hook accordingly)',
-                 'snapshot and tape paths are exercised at the start of a frame (their internal ordering of memory '
-                 'copy, clock advance and cache refresh is then unobservable); SCR loads also mid-frame',
+                 'frame clocks only move forward within a frame (the controller guarantees it); in the correspondence '
+                 'time passes only through wait_internal, the clock hook is not used',
+                 'SNA/SZX loads are exercised at the start of a frame (their internal ordering of memory copy, clock '
+                 'advance and cache refresh is then unobservable); CPU writes, real instructions, pokes, tape fast-load '
+                 'and SCR loads at arbitrary beam positions',
                  'ROM contents and the IO extender are outside this model; AY ports have no video effect'],
  'design_ref': 'DESIGN.md section 8, C08; Appendix E "C08 stdDecode"',
  'technique': 'Lean 4 proof: closed forms of the rendering loops, render invariant by induction over clock '
